@@ -235,13 +235,31 @@ Fixpoint no_adj_lit (p : pat) : Prop :=
 
 Definition wf (p : pat) : Prop := NoDup (attrs p) /\ Forall wf_item p /\ no_adj_lit p.
 
+(* the same without the brace restriction on the literal text (the patterns of the variant that
+   escapes literal braces; the rewriting loop itself never looks at braces) *)
+Definition wfg_item (it : item) : Prop :=
+  match it with
+  | Lit s => find_attr s = None
+  | Attr _ None => True
+  | Attr _ (Some sp) => ~ In c_rp sp /\ ~ In c_lb sp /\ ~ In c_rb sp /\ find_attr sp = None
+  end.
+Definition wfg (p : pat) : Prop := NoDup (attrs p) /\ Forall wfg_item p /\ no_adj_lit p.
+
+Lemma wf_item_wfg it : wf_item it -> wfg_item it.
+Proof. destruct it as [s|a [sp|]]; cbn [wf_item wfg_item]; tauto. Qed.
+Lemma wf_wfg p : wf p -> wfg p.
+Proof.
+  intros (H1 & H2 & H3). split; [exact H1|split; [|exact H3]].
+  eapply Forall_impl; [|exact H2]. apply wf_item_wfg.
+Qed.
+
 Lemma print_cons it r : print (it :: r) = print_item it ++ print r.
 Proof. reflexivity. Qed.
 Lemma fmt_body_cons it r : fmt_body (it :: r) = fmt_item it ++ fmt_body r.
 Proof. reflexivity. Qed.
 
 Lemma find_attr_field sp :
-  wf_item (Attr Time sp) -> find_attr (c_lb :: fspec sp ++ [c_rb]) = None.
+  wfg_item (Attr Time sp) -> find_attr (c_lb :: fspec sp ++ [c_rb]) = None.
 Proof.
   destruct sp as [sp|]; intros H; [|reflexivity].
   destruct H as (_ & _ & _ & H). cbn [fspec app].
@@ -255,7 +273,7 @@ Proof. rewrite app_assoc. apply ends_pct_snoc. Qed.
 
 (* one iteration of the loop on "<clean prefix>%(name:spec)<rest>" *)
 Lemma gen_loop_step f acc a sp post idx order iset :
-  find_attr acc = None -> wf_item (Attr a sp) ->
+  find_attr acc = None -> wfg_item (Attr a sp) ->
   gen_loop (S f) (acc ++ print_item (Attr a sp) ++ post) idx order iset =
   gen_loop f (acc ++ fmt_item (Attr a sp) ++ post) (Nat.modulo (S idx) 256)
            (set_nth (attr_idx a) idx order) (set_nth (attr_idx a) true iset).
@@ -279,8 +297,14 @@ Qed.
 Definition boundary (acc : bytes) (p : pat) : Prop :=
   match p with Lit s :: _ => find_attr (acc ++ s) = None | _ => True end.
 
+Lemma boundary_nil p : Forall wfg_item p -> boundary [] p.
+Proof.
+  destruct p as [|[s|a sp] r]; cbn [boundary app]; auto.
+  intros H. inversion H as [|? ? Hs _]; subst. exact Hs.
+Qed.
+
 Lemma gen_loop_items : forall p acc idx order iset fuel,
-  Forall wf_item p -> no_adj_lit p -> find_attr acc = None -> boundary acc p ->
+  Forall wfg_item p -> no_adj_lit p -> find_attr acc = None -> boundary acc p ->
   length (attrs p) < fuel ->
   gen_loop fuel (acc ++ print p ++ [c_nl]) idx order iset =
   LOk (acc ++ fmt_body p ++ [c_nl]) (order_fold (attrs p) idx order) (set_fold (attrs p) iset).
@@ -316,7 +340,7 @@ Proof.
       apply IH; auto; [|lia].
       destruct r as [|[s'|a' sp'] r']; cbn [boundary]; auto.
       apply find_attr_app_none; [exact Hf| |].
-      * inversion Hr as [|? ? Hs' _]; subst. apply Hs'.
+      * inversion Hr as [|? ? Hs' _]; subst. exact Hs'.
       * unfold fmt_item. rewrite (app_assoc [c_lb]), ends_pct_app_snoc. reflexivity.
 Qed.
 
@@ -334,15 +358,216 @@ Proof.
   - cbn [app]. discriminate.
 Qed.
 
-(* generate (print p) is exactly the expected rewriting, slot table and "is set" bits *)
-Lemma gen_print p : wf p -> generate (print p) = GOk (gen_of p).
+(* the constructor on the text the rewriting loop is given (after the optional pre-pass) *)
+Definition gen_raw (s : bytes) : lres :=
+  gen_loop (S (length s)) (s ++ [c_nl]) 0 (repeat (ATTR_NR_ITEMS - 1) ATTR_NR_ITEMS)
+           (repeat false ATTR_NR_ITEMS).
+
+Lemma generate_eq v s :
+  generate v s =
+  match gen_raw (if pv_esc v then esc_scan false s else s) with
+  | LOk f o b => GOk {| g_fmt := f; g_order := o; g_set := b;
+                        g_empty := match s with [] => true | _ => false end |}
+  | LErr e => GErr e
+  end.
+Proof. reflexivity. Qed.
+
+(* the rewriting loop on a printed pattern: exactly the expected fmt string, slot table and
+   "is set" bits (braces in the literal text play no role in it) *)
+Lemma gen_raw_print p : wfg p -> gen_raw (print p) = LOk (fmt_of p) (order_of p) (set_of p).
 Proof.
-  intros (Hnd & Hwf & Hadj). unfold generate.
+  intros (Hnd & Hwf & Hadj). unfold gen_raw.
   change (print p ++ [c_nl]) with ([] ++ print p ++ [c_nl]).
-  rewrite gen_loop_items; [reflexivity|exact Hwf|exact Hadj|reflexivity| |].
-  - destruct p as [|[s|a sp] r]; cbn [boundary app]; auto.
-    inversion Hwf as [|? ? Hs _]; subst. apply Hs.
-  - pose proof (attrs_le_print p). lia.
+  rewrite gen_loop_items; [reflexivity|exact Hwf|exact Hadj|reflexivity|apply boundary_nil; exact Hwf|].
+  pose proof (attrs_le_print p). lia.
+Qed.
+
+(* ---------- the pre-pass that doubles the braces of the literal text ---------- *)
+Lemma esc_scan_in body : forall rest, ~ In c_rp body ->
+  esc_scan true (body ++ c_rp :: rest) = body ++ c_rp :: esc_scan false rest.
+Proof.
+  induction body as [|c t IH]; intros rest H; cbn [app esc_scan].
+  - change (N.eqb c_rp c_rp) with true. reflexivity.
+  - destruct (N.eqb_spec c c_rp) as [E|E]; [exfalso; apply H; now left|].
+    cbn [negb]. rewrite IH; [reflexivity|]. intros Hi; apply H; now right.
+Qed.
+
+Lemma esc_scan_in_none s : ~ In c_rp s -> esc_scan true s = s.
+Proof.
+  induction s as [|c t IH]; intros H; cbn [esc_scan]; [reflexivity|].
+  destruct (N.eqb_spec c c_rp) as [E|E]; [exfalso; apply H; now left|].
+  cbn [negb]. rewrite IH; [reflexivity|]. intros Hi; apply H; now right.
+Qed.
+
+Lemma esc_scan_cons c t :
+  esc_scan false (c :: t) =
+  if N.eqb c c_pct then
+    match t with
+    | d :: r => if N.eqb d c_lp then c :: d :: esc_scan true r else c :: esc_scan false t
+    | [] => [c]
+    end
+  else if is_brace c then c :: c :: esc_scan false t
+  else c :: esc_scan false t.
+Proof. reflexivity. Qed.
+
+Lemma is_brace_pct : is_brace c_pct = false.
+Proof. reflexivity. Qed.
+
+(* literal text (no "%(" inside, and none formed with what follows) *)
+Lemma esc_scan_lit s : forall rest,
+  find_attr s = None -> ends_pct s && starts_lp rest = false ->
+  esc_scan false (s ++ rest) = dbl_braces s ++ esc_scan false rest.
+Proof.
+  induction s as [|c t IH]; intros rest Hs Hb; [reflexivity|].
+  rewrite find_attr_cons in Hs. cbv zeta in Hs.
+  cbn [app]. rewrite esc_scan_cons. cbn [dbl_braces].
+  destruct (N.eqb_spec c c_pct) as [Ec|Ec].
+  - subst c. rewrite is_brace_pct.
+    destruct t as [|d r].
+    + cbn [app dbl_braces]. cbn [ends_pct] in Hb. change (N.eqb c_pct c_pct) with true in Hb.
+      cbn [andb] in Hb. destruct rest as [|d r]; [reflexivity|].
+      cbn [starts_lp] in Hb. rewrite Hb. reflexivity.
+    + cbn [app]. destruct (N.eqb_spec d c_lp) as [Ed|Ed]; [discriminate|].
+      change (d :: r ++ rest) with ((d :: r) ++ rest). rewrite IH; [reflexivity| |exact Hb].
+      destruct (find_attr (d :: r)) as [[a0 b0]|]; [discriminate|reflexivity].
+  - assert (Ht : find_attr t = None) by (destruct (find_attr t) as [[a0 b0]|]; [discriminate|reflexivity]).
+    assert (Hb' : ends_pct t && starts_lp rest = false).
+    { destruct t as [|d r]; [reflexivity|exact Hb]. }
+    rewrite (IH rest Ht Hb'). destruct (is_brace c); reflexivity.
+Qed.
+
+Lemma esc_scan_attr a sp rest : wfg_item (Attr a sp) ->
+  esc_scan false (print_item (Attr a sp) ++ rest) = print_item (Attr a sp) ++ esc_scan false rest.
+Proof.
+  intros Hwf. cbn [print_item].
+  assert (Hrp : ~ In c_rp (attr_name a ++ fspec sp)).
+  { apply not_in_app; [apply attr_name_no_rp|]. destruct sp as [sp|]; [|intros []].
+    cbn [fspec]. destruct Hwf as (H & _). intros [E|Hi]; [discriminate|now apply H]. }
+  replace (([c_pct; c_lp] ++ attr_name a ++ fspec sp ++ [c_rp]) ++ rest)
+    with (c_pct :: c_lp :: ((attr_name a ++ fspec sp) ++ c_rp :: rest))
+    by (cbn [app]; now rewrite <- !app_assoc).
+  rewrite esc_scan_cons. change (N.eqb c_pct c_pct) with true. cbv iota.
+  change (N.eqb c_lp c_lp) with true. cbv iota.
+  rewrite (esc_scan_in _ _ Hrp). cbn [app]. now rewrite <- !app_assoc.
+Qed.
+
+(* the pre-pass on a printed pattern followed by any text that does not start with '(' *)
+Lemma esc_scan_print : forall p tail, Forall wfg_item p -> no_adj_lit p -> starts_lp tail = false ->
+  esc_scan false (print p ++ tail) = print (esc_pat p) ++ esc_scan false tail.
+Proof.
+  induction p as [|[s|a sp] r IH]; intros tail Hwf Hadj Ht.
+  - reflexivity.
+  - inversion Hwf as [|? ? Hit Hr]; subst. cbn [esc_pat map esc_item].
+    rewrite !print_cons. cbn [print_item]. rewrite <- !app_assoc.
+    cbn [no_adj_lit] in Hadj.
+    rewrite esc_scan_lit; [|exact Hit|].
+    + f_equal. apply IH; [exact Hr| |exact Ht]. destruct r as [|[s'|a' sp'] r']; auto. contradiction.
+    + destruct r as [|[s'|a' sp'] r']; [cbn [print map concat app]; rewrite Ht; apply andb_false_r|contradiction|].
+      rewrite print_cons. cbn [print_item app starts_lp]. apply andb_false_r.
+  - inversion Hwf as [|? ? Hit Hr]; subst. cbn [esc_pat map esc_item].
+    rewrite !print_cons. rewrite <- !app_assoc.
+    rewrite esc_scan_attr by exact Hit. f_equal. apply IH; [exact Hr|exact Hadj|exact Ht].
+Qed.
+
+Lemma esc_scan_print_nil p : Forall wfg_item p -> no_adj_lit p ->
+  esc_scan false (print p) = print (esc_pat p).
+Proof.
+  intros Hwf Hadj. rewrite <- (app_nil_r (print p)), esc_scan_print by auto.
+  cbn [esc_scan]. now rewrite app_nil_r.
+Qed.
+
+Lemma dbl_braces_head c t : exists t', dbl_braces (c :: t) = c :: t'.
+Proof. cbn [dbl_braces]. destruct (is_brace c); eauto. Qed.
+
+Lemma find_attr_dbl s : find_attr s = None -> find_attr (dbl_braces s) = None.
+Proof.
+  induction s as [|c t IH]; intros H; [reflexivity|].
+  rewrite find_attr_cons in H. cbv zeta in H. cbn [dbl_braces].
+  destruct (N.eqb_spec c c_pct) as [Ec|Ec].
+  - subst c. rewrite is_brace_pct. rewrite find_attr_cons. cbv zeta.
+    change (N.eqb c_pct c_pct) with true. cbv iota.
+    destruct t as [|d r]; [reflexivity|].
+    destruct (N.eqb_spec d c_lp) as [Ed|Ed]; [discriminate|].
+    destruct (dbl_braces_head d r) as [t' Ht']. rewrite Ht'.
+    destruct (N.eqb_spec d c_lp) as [Ed'|_]; [contradiction|].
+    rewrite <- Ht', IH; [reflexivity|].
+    destruct (find_attr (d :: r)) as [[a0 b0]|]; [discriminate|reflexivity].
+  - assert (Ht : find_attr t = None) by (destruct (find_attr t) as [[a0 b0]|]; [discriminate|reflexivity]).
+    destruct (is_brace c).
+    + rewrite !find_attr_cons. cbv zeta.
+      destruct (N.eqb_spec c c_pct) as [E|_]; [contradiction|]. now rewrite (IH Ht).
+    + rewrite find_attr_cons. cbv zeta.
+      destruct (N.eqb_spec c c_pct) as [E|_]; [contradiction|]. now rewrite (IH Ht).
+Qed.
+
+Lemma attrs_esc_pat p : attrs (esc_pat p) = attrs p.
+Proof.
+  induction p as [|[s|a sp] r IH]; [reflexivity| |]; cbn [esc_pat map esc_item attrs];
+    [exact IH|f_equal; exact IH].
+Qed.
+
+Lemma wfg_esc_pat p : wfg p -> wfg (esc_pat p).
+Proof.
+  intros (Hnd & Hwf & Hadj). split; [now rewrite attrs_esc_pat|split].
+  - unfold esc_pat. apply Forall_map. eapply Forall_impl; [|exact Hwf].
+    intros [s|a sp]; cbn [esc_item wfg_item]; [apply find_attr_dbl|auto].
+  - clear Hnd Hwf. induction p as [|[s|a sp] r IH]; [exact I| |].
+    + cbn [esc_pat map esc_item no_adj_lit] in *. destruct r as [|[s'|a' sp'] r']; [exact I|contradiction|].
+      apply IH. exact Hadj.
+    + cbn [esc_pat map esc_item no_adj_lit] in *. now apply IH.
+Qed.
+
+Lemma dbl_braces_id s : ~ In c_lb s -> ~ In c_rb s -> dbl_braces s = s.
+Proof.
+  induction s as [|c t IH]; intros Hl Hr; [reflexivity|]. cbn [dbl_braces]. unfold is_brace.
+  destruct (N.eqb_spec c c_lb) as [E|E]; [exfalso; apply Hl; now left|].
+  destruct (N.eqb_spec c c_rb) as [E'|E']; [exfalso; apply Hr; now left|].
+  cbn [orb]. rewrite IH; [reflexivity| |]; intros Hi; [apply Hl|apply Hr]; now right.
+Qed.
+
+(* brace-free literal text: the pre-pass changes nothing *)
+Lemma esc_pat_wf p : Forall wf_item p -> esc_pat p = p.
+Proof.
+  induction 1 as [|it r Hit _ IH]; [reflexivity|].
+  change (esc_pat (it :: r)) with (esc_item it :: esc_pat r). rewrite IH. f_equal.
+  destruct it as [s|a sp]; [|reflexivity]. cbn [esc_item]. destruct Hit as (Hl & Hr & _).
+  now rewrite dbl_braces_id.
+Qed.
+
+Lemma print_esc_pat_nil p : match print (esc_pat p) with [] => true | _ => false end
+                            = match print p with [] => true | _ => false end.
+Proof.
+  destruct p as [|[s|a sp] r]; [reflexivity| |reflexivity].
+  cbn [esc_pat map esc_item]. rewrite !print_cons. cbn [print_item].
+  destruct s as [|c t]; [|cbn [dbl_braces]; destruct (is_brace c); reflexivity].
+  cbn [dbl_braces app]. clear. induction r as [|[s|a sp] r IH]; [reflexivity| |reflexivity].
+  cbn [map esc_item]. rewrite !print_cons. cbn [print_item].
+  destruct s as [|c t]; [exact IH|cbn [dbl_braces]; destruct (is_brace c); reflexivity].
+Qed.
+
+(* generate (print p) is exactly the expected rewriting, slot table and "is set" bits: for the
+   variant without the pre-pass (literal braces reach fmt as they are) ... *)
+Lemma gen_print_unesc v p : pv_esc v = false -> wfg p -> generate v (print p) = GOk (gen_of p).
+Proof. intros He Hwf. rewrite generate_eq, He, (gen_raw_print p Hwf). reflexivity. Qed.
+
+(* ... and for the variant with it: the literal braces arrive doubled *)
+Lemma gen_print_esc v p : pv_esc v = true -> wfg p ->
+  generate v (print p) = GOk (gen_of (esc_pat p)).
+Proof.
+  intros He Hwf. rewrite generate_eq, He.
+  destruct Hwf as (Hnd & Hit & Hadj).
+  rewrite (esc_scan_print_nil p Hit Hadj).
+  rewrite (gen_raw_print (esc_pat p) (wfg_esc_pat p (conj Hnd (conj Hit Hadj)))).
+  unfold gen_of. now rewrite print_esc_pat_nil.
+Qed.
+
+(* brace-free literal text: both variants *)
+Lemma gen_print v p : wf p -> generate v (print p) = GOk (gen_of p).
+Proof.
+  intros Hwf. destruct (pv_esc v) eqn:He.
+  - rewrite (gen_print_esc v p He (wf_wfg p Hwf)). destruct Hwf as (_ & Hit & _).
+    now rewrite (esc_pat_wf p Hit).
+  - exact (gen_print_unesc v p He (wf_wfg p Hwf)).
 Qed.
 
 (* ---------- slot table ---------- *)
@@ -571,16 +796,34 @@ Proof.
     cbn [rev]. now rewrite <- app_assoc.
 Qed.
 
-Lemma fspec_no_braces a sp : wf_item (Attr a sp) -> ~ In c_lb (fspec sp) /\ ~ In c_rb (fspec sp).
+(* literal text whose braces were doubled comes out as it was written *)
+Lemma mf_dbl s : forall i rest,
+  mf apply_spec args MText i (dbl_braces s ++ rest) = fapp s (mf apply_spec args MText i rest).
 Proof.
-  destruct sp as [sp|]; cbn [wf_item fspec]; [|split; intros []].
+  induction s as [|c s IH]; intros i rest; [now rewrite fapp_nil|].
+  cbn [dbl_braces]. unfold is_brace.
+  destruct (N.eqb_spec c c_lb) as [El|El].
+  - subst c. cbn [orb app mf]. change (N.eqb c_lb c_lb) with true. cbv iota.
+    rewrite IH. apply fcons_fapp.
+  - destruct (N.eqb_spec c c_rb) as [Er|Er].
+    + subst c. cbn [orb app mf]. change (N.eqb c_rb c_lb) with false.
+      change (N.eqb c_rb c_rb) with true. cbv iota. rewrite IH. apply fcons_fapp.
+    + cbn [orb app mf].
+      destruct (N.eqb_spec c c_lb) as [E|_]; [contradiction|].
+      destruct (N.eqb_spec c c_rb) as [E|_]; [contradiction|].
+      rewrite IH. apply fcons_fapp.
+Qed.
+
+Lemma fspec_no_braces a sp : wfg_item (Attr a sp) -> ~ In c_lb (fspec sp) /\ ~ In c_rb (fspec sp).
+Proof.
+  destruct sp as [sp|]; cbn [wfg_item fspec]; [|split; intros []].
   intros (_ & Hl & Hr & _). split; intros [E|Hi]; try discriminate; auto.
 Qed.
 
 Lemma field_supported_fspec sp : field_supported (fspec sp) = true.
 Proof. destruct sp; reflexivity. Qed.
 
-Lemma mf_attr a sp i rest v : wf_item (Attr a sp) -> nth_error args i = Some (Some v) ->
+Lemma mf_attr a sp i rest v : wfg_item (Attr a sp) -> nth_error args i = Some (Some v) ->
   mf apply_spec args MText i (fmt_item (Attr a sp) ++ rest) =
   fapp (apply_spec (fspec sp) v) (mf apply_spec args MText (S i) rest).
 Proof.
@@ -613,6 +856,27 @@ Proof.
       intros k b Hk. replace (S i + k) with (i + S k) by lia. now apply Hargs.
     + replace i with (i + 0) by lia. now apply Hargs.
 Qed.
+
+(* the same for the fmt string of the variant that doubles the literal braces: the literal text of
+   the pattern comes out unchanged, braces included *)
+Lemma mf_items_esc env : forall p i, Forall wfg_item p ->
+  (forall k a, nth_error (attrs p) k = Some a -> nth_error args (i + k) = Some (Some (env a))) ->
+  mf apply_spec args MText i (fmt_body (esc_pat p) ++ [c_nl]) = FOk (line_spec apply_spec p env).
+Proof.
+  induction p as [|[s|a sp] r IH]; intros i Hwf Hargs.
+  - reflexivity.
+  - inversion Hwf as [|? ? Hit Hwr]; subst.
+    change (esc_pat (Lit s :: r)) with (Lit (dbl_braces s) :: esc_pat r).
+    rewrite fmt_body_cons. cbn [fmt_item]. rewrite <- app_assoc, mf_dbl.
+    rewrite (IH i Hwr) by exact Hargs. now rewrite line_spec_cons.
+  - inversion Hwf as [|? ? Hit Hwr]; subst.
+    change (esc_pat (Attr a sp :: r)) with (Attr a sp :: esc_pat r).
+    rewrite fmt_body_cons, <- app_assoc.
+    rewrite (mf_attr a sp i _ (env a)); [|exact Hit|].
+    + rewrite (IH (S i) Hwr); [now rewrite line_spec_cons|].
+      intros k b Hk. replace (S i + k) with (i + S k) by lia. now apply Hargs.
+    + replace i with (i + 0) by lia. now apply Hargs.
+Qed.
 End FmtProofs.
 
 Lemma slot_oob_gen_of p : NoDup (attrs p) -> slot_oob (gen_of p) = false.
@@ -638,6 +902,21 @@ Proof.
   apply mf_items; [exact Hwf|]. intros k a Hk. cbn [plus]. now apply filled_args.
 Qed.
 
+(* ... and for the variant that doubles the braces of the literal text: the same line, for
+   literal text with any braces *)
+Lemma format_env_line_esc apply_spec p env : wfg p -> print p <> [] ->
+  format_env apply_spec (gen_of (esc_pat p)) env = FOk (line_spec apply_spec p env).
+Proof.
+  intros (Hnd & Hwf & _) Hne. unfold format_env.
+  assert (Hnd' : NoDup (attrs (esc_pat p))) by now rewrite attrs_esc_pat.
+  assert (He : g_empty (gen_of (esc_pat p)) = false).
+  { unfold gen_of. cbn [g_empty]. rewrite print_esc_pat_nil. destruct (print p); [contradiction|reflexivity]. }
+  rewrite He, (slot_oob_gen_of _ Hnd'). unfold minifmt.
+  change (g_fmt (gen_of (esc_pat p))) with (fmt_body (esc_pat p) ++ [c_nl]).
+  apply mf_items_esc; [exact Hwf|]. intros k a Hk. cbn [plus].
+  apply filled_args; [exact Hnd'|now rewrite attrs_esc_pat].
+Qed.
+
 Lemma format_env_empty apply_spec p env : print p = [] ->
   format_env apply_spec (gen_of p) env = FOk [].
 Proof. intros H. unfold format_env, gen_of. cbn [g_empty]. now rewrite H. Qed.
@@ -648,7 +927,7 @@ Fixpoint idx_fold (l : list attr) (idx : nat) : nat :=
 
 (* processing a well-formed prefix of the pattern, whatever follows *)
 Lemma gen_loop_prefix : forall p acc idx order iset fuel tail,
-  Forall wf_item p -> no_adj_lit p -> find_attr acc = None -> boundary acc p ->
+  Forall wfg_item p -> no_adj_lit p -> find_attr acc = None -> boundary acc p ->
   gen_loop (length (attrs p) + fuel) (acc ++ print p ++ tail) idx order iset =
   gen_loop fuel ((acc ++ fmt_body p) ++ tail) (idx_fold (attrs p) idx)
            (order_fold (attrs p) idx order) (set_fold (attrs p) iset)
@@ -681,21 +960,15 @@ Proof.
       apply IH; auto.
       destruct r as [|[s'|a' sp'] r']; cbn [boundary]; auto.
       apply find_attr_app_none; [exact Hf| |].
-      * inversion Hr as [|? ? Hs' _]; subst. apply Hs'.
+      * inversion Hr as [|? ? Hs' _]; subst. exact Hs'.
       * unfold fmt_item. rewrite (app_assoc [c_lb]), ends_pct_app_snoc. reflexivity.
 Qed.
 
-Lemma boundary_nil p : Forall wf_item p -> boundary [] p.
-Proof.
-  destruct p as [|[s|a sp] r]; cbn [boundary app]; auto.
-  intros H. inversion H as [|? ? Hs _]; subst. apply Hs.
-Qed.
-
 (* an unterminated "%(" after any well-formed prefix is rejected when the formatter is created *)
-Lemma gen_rejects_unterminated p rest : wf p -> ~ In c_rp rest ->
-  generate (print p ++ [c_pct; c_lp] ++ rest) = GErr GE_unterminated.
+Lemma gen_raw_unterminated p rest : wfg p -> ~ In c_rp rest ->
+  gen_raw (print p ++ [c_pct; c_lp] ++ rest) = LErr GE_unterminated.
 Proof.
-  intros (Hnd & Hwf & Hadj) Hrest. unfold generate.
+  intros (Hnd & Hwf & Hadj) Hrest. unfold gen_raw.
   set (pattern := print p ++ [c_pct; c_lp] ++ rest).
   assert (Hfuel : exists k, S (length pattern) = length (attrs p) + S k).
   { exists (length pattern - length (attrs p)). pose proof (attrs_le_print p).
@@ -711,14 +984,28 @@ Proof.
   apply not_in_app; [exact Hrest|]. intros [E|[]]; discriminate.
 Qed.
 
+(* (for both variants, whatever braces the literal text of the prefix holds) *)
+Lemma gen_rejects_unterminated v p rest : wfg p -> ~ In c_rp rest ->
+  generate v (print p ++ [c_pct; c_lp] ++ rest) = GErr GE_unterminated.
+Proof.
+  intros Hwf Hrest. rewrite generate_eq. destruct (pv_esc v).
+  - destruct Hwf as (Hnd & Hit & Hadj).
+    rewrite (esc_scan_print p ([c_pct; c_lp] ++ rest) Hit Hadj eq_refl).
+    cbn [app]. rewrite esc_scan_cons. change (N.eqb c_pct c_pct) with true. cbv iota.
+    change (N.eqb c_lp c_lp) with true. cbv iota. rewrite (esc_scan_in_none _ Hrest).
+    change (print (esc_pat p) ++ c_pct :: c_lp :: rest) with (print (esc_pat p) ++ [c_pct; c_lp] ++ rest).
+    now rewrite (gen_raw_unterminated _ _ (wfg_esc_pat p (conj Hnd (conj Hit Hadj))) Hrest).
+  - now rewrite (gen_raw_unterminated _ _ Hwf Hrest).
+Qed.
+
 (* an unknown attribute name after any well-formed prefix is rejected when the formatter is
    created (with or without a spec, whatever follows the closing parenthesis) *)
-Lemma gen_rejects_unknown p name sp post : wf p ->
+Lemma gen_raw_unknown p name sp post : wfg p ->
   ~ In c_rp name -> ~ In c_colon name -> attr_of_name name = None ->
   ~ In c_rp (fspec sp) ->
-  generate (print p ++ [c_pct; c_lp] ++ name ++ fspec sp ++ [c_rp] ++ post) = GErr (GE_unknown name).
+  gen_raw (print p ++ [c_pct; c_lp] ++ name ++ fspec sp ++ [c_rp] ++ post) = LErr (GE_unknown name).
 Proof.
-  intros (Hnd & Hwf & Hadj) Hn1 Hn2 Hname Hsp. unfold generate.
+  intros (Hnd & Hwf & Hadj) Hn1 Hn2 Hname Hsp. unfold gen_raw.
   set (pattern := print p ++ [c_pct; c_lp] ++ name ++ fspec sp ++ [c_rp] ++ post).
   assert (Hfuel : exists k, S (length pattern) = length (attrs p) + S k).
   { exists (length pattern - length (attrs p)). pose proof (attrs_le_print p).
@@ -739,6 +1026,27 @@ Proof.
   - rewrite app_nil_r. rewrite (split_at_none _ _ Hn2). now rewrite Hname.
 Qed.
 
+Lemma gen_rejects_unknown v p name sp post : wfg p ->
+  ~ In c_rp name -> ~ In c_colon name -> attr_of_name name = None ->
+  ~ In c_rp (fspec sp) ->
+  generate v (print p ++ [c_pct; c_lp] ++ name ++ fspec sp ++ [c_rp] ++ post) = GErr (GE_unknown name).
+Proof.
+  intros Hwf Hn1 Hn2 Hname Hsp. rewrite generate_eq. destruct (pv_esc v).
+  - destruct Hwf as (Hnd & Hit & Hadj).
+    rewrite (esc_scan_print p ([c_pct; c_lp] ++ name ++ fspec sp ++ [c_rp] ++ post) Hit Hadj eq_refl).
+    replace ([c_pct; c_lp] ++ name ++ fspec sp ++ [c_rp] ++ post)
+      with (c_pct :: c_lp :: (name ++ fspec sp) ++ c_rp :: post)
+      by (cbn [app]; now rewrite <- !app_assoc).
+    rewrite esc_scan_cons. change (N.eqb c_pct c_pct) with true. cbv iota.
+    change (N.eqb c_lp c_lp) with true. cbv iota.
+    rewrite (esc_scan_in _ _ (not_in_app _ _ _ Hn1 Hsp)).
+    replace (print (esc_pat p) ++ c_pct :: c_lp :: (name ++ fspec sp) ++ c_rp :: esc_scan false post)
+      with (print (esc_pat p) ++ [c_pct; c_lp] ++ name ++ fspec sp ++ [c_rp] ++ esc_scan false post)
+      by (cbn [app]; now rewrite <- !app_assoc).
+    now rewrite (gen_raw_unknown _ _ sp _ (wfg_esc_pat p (conj Hnd (conj Hit Hadj))) Hn1 Hn2 Hname Hsp).
+  - now rewrite (gen_raw_unknown _ _ sp _ Hwf Hn1 Hn2 Hname Hsp).
+Qed.
+
 (* the explicit fuel of the re-scan is never exhausted: every replacement shortens the string *)
 Lemma gen_loop_fuel_ok : forall fuel s idx order iset,
   length s <= fuel -> 1 <= fuel -> gen_loop fuel s idx order iset <> LErr GE_fuel.
@@ -757,10 +1065,10 @@ Proof.
     apply IH; rewrite ?app_length in *; cbn [length] in *; rewrite ?app_length in *; cbn [length] in *; lia.
 Qed.
 
-Lemma generate_fuel_ok s : generate s <> GErr GE_fuel.
+Lemma generate_fuel_ok v s : generate v s <> GErr GE_fuel.
 Proof.
-  unfold generate.
-  pose proof (gen_loop_fuel_ok (S (length s)) (s ++ [c_nl]) 0
+  rewrite generate_eq. set (s' := if pv_esc v then esc_scan false s else s). unfold gen_raw.
+  pose proof (gen_loop_fuel_ok (S (length s')) (s' ++ [c_nl]) 0
                 (repeat (ATTR_NR_ITEMS - 1) ATTR_NR_ITEMS) (repeat false ATTR_NR_ITEMS)) as H.
   destruct (gen_loop _ _ _ _ _) as [? ? ?|e]; [discriminate|].
   intros E. inversion E; subst. apply H; [rewrite app_length; cbn; lia|lia|reflexivity].
@@ -893,33 +1201,44 @@ Proof. induction a as [|x a IH]; cbn; [now destruct b|now rewrite IH]. Qed.
 Lemma skipn_length_app {A} (a b : list A) : skipn (length a) (a ++ b) = b.
 Proof. induction a as [|x a IH]; cbn; auto. Qed.
 
+(* a position that fits the width of the two members is stored unchanged; with size_t (>= 64
+   bits) every position is *)
+Definition fits (v : pvar) (n : N) : Prop := (64 <= pv_bits v \/ n < 2 ^ pv_bits v)%N.
+
+Lemma wpos_small v x n : fits v n -> (x <= n)%N -> wpos v x = x.
+Proof.
+  intros [H|H] Hx; unfold wpos.
+  - apply N.leb_le in H. now rewrite H.
+  - destruct (N.leb 64 (pv_bits v)); [reflexivity|]. apply N.mod_small. lia.
+Qed.
+
 (* dir is empty or ends with '/'; fname has no '/'; line has neither '/' nor ':' *)
-Lemma mm_fields dir fname line :
+Lemma mm_fields v dir fname line :
   (dir = [] \/ exists d, dir = d ++ [c_slash]) ->
   ~ In c_slash fname -> ~ In c_slash line -> ~ In c_colon line ->
   let sl := dir ++ fname ++ [c_colon] ++ line in
-  (N.of_nat (length sl) < 65536)%N ->
+  fits v (N.of_nat (length sl)) ->
   mm_source_location sl = (dir ++ fname) ++ [c_colon] ++ line /\
-  mm_full_path sl = dir ++ fname /\
-  mm_line sl = line /\
-  mm_file_name sl = fname /\
-  mm_short_source_location sl = fname ++ [c_colon] ++ line /\
-  mm_in_bounds sl = true.
+  mm_full_path v sl = dir ++ fname /\
+  mm_line v sl = line /\
+  mm_file_name v sl = fname /\
+  mm_short_source_location v sl = fname ++ [c_colon] ++ line /\
+  mm_in_bounds v sl = true.
 Proof.
   intros Hdir Hf Hl1 Hl2 sl Hlen.
   assert (Hsl : sl = (dir ++ fname) ++ c_colon :: line) by (unfold sl; now rewrite <- app_assoc).
   assert (Hsl2 : sl = dir ++ (fname ++ c_colon :: line)) by reflexivity.
   clearbody sl.
-  assert (Hcp : colon_pos sl = N.of_nat (length (dir ++ fname))).
-  { unfold colon_pos. rewrite Hsl at 1. rewrite (rfind_app _ _ _ Hl2). unfold w16. apply N.mod_small.
-    rewrite Hsl, app_length in Hlen. lia. }
-  assert (Hfp : file_name_pos sl = N.of_nat (length dir)).
+  assert (Hcp : colon_pos v sl = N.of_nat (length (dir ++ fname))).
+  { unfold colon_pos. rewrite Hsl at 1. rewrite (rfind_app _ _ _ Hl2).
+    apply (wpos_small v _ _ Hlen). rewrite Hsl, !app_length. cbn [length]. lia. }
+  assert (Hfp : file_name_pos v sl = N.of_nat (length dir)).
   { unfold file_name_pos. rewrite Hsl2, fnpos_loop_app.
     rewrite fnpos_loop_none.
-    - destruct Hdir as [->|[d ->]]; [reflexivity|].
+    - destruct Hdir as [->|[d ->]]; [cbn [fnpos_loop length]; apply (wpos_small v _ _ Hlen); lia|].
       rewrite fnpos_loop_app. cbn [fnpos_loop]. change (N.eqb c_slash c_slash) with true. cbv iota.
-      unfold w16. rewrite app_length. cbn [length].
-      rewrite N.mod_small; [lia|]. rewrite Hsl2, !app_length in Hlen. cbn [length] in Hlen. lia.
+      rewrite app_length. cbn [length].
+      rewrite (wpos_small v _ _ Hlen); [lia|]. rewrite Hsl2, !app_length. cbn [length]. lia.
     - apply not_in_app; [exact Hf|]. intros [E|Hi]; [discriminate|now apply Hl1]. }
   unfold mm_source_location, mm_full_path, mm_line, mm_file_name, mm_short_source_location,
     mm_in_bounds, firstN, skipN.
@@ -942,6 +1261,20 @@ Proof.
     + rewrite Hsl, !app_length. cbn [length]. lia.
     + rewrite app_length. lia.
 Qed.
+
+(* size_t members (the repaired code): no premise on the length *)
+Lemma mm_fields_wide v dir fname line :
+  (64 <= pv_bits v)%N ->
+  (dir = [] \/ exists d, dir = d ++ [c_slash]) ->
+  ~ In c_slash fname -> ~ In c_slash line -> ~ In c_colon line ->
+  let sl := dir ++ fname ++ [c_colon] ++ line in
+  mm_source_location sl = (dir ++ fname) ++ [c_colon] ++ line /\
+  mm_full_path v sl = dir ++ fname /\
+  mm_line v sl = line /\
+  mm_file_name v sl = fname /\
+  mm_short_source_location v sl = fname ++ [c_colon] ++ line /\
+  mm_in_bounds v sl = true.
+Proof. intros Hb Hdir Hf Hl1 Hl2 sl. apply mm_fields; auto. now left. Qed.
 
 (* ---------- runtime metadata split ---------- *)
 Lemma starts_with_sep_app c t r :
@@ -1020,48 +1353,59 @@ Definition id_spec (fs v : bytes) : bytes := v.
 Definition env0 (a : attr) : bytes := attr_name a.
 
 (* (1) the empty pattern is special-cased: format() returns an empty string, no newline *)
-Lemma empty_pattern_refuted :
-  wf [] /\ generate (print []) = GOk (gen_of []) /\
+Lemma empty_pattern_refuted : forall v,
+  wf [] /\ generate v (print []) = GOk (gen_of []) /\
   format_env id_spec (gen_of []) env0 = FOk [] /\
   format_env id_spec (gen_of []) env0 <> FOk (line_spec id_spec [] env0).
 Proof.
-  repeat split; try (vm_compute; reflexivity).
+  intros v. repeat split; try (vm_compute; reflexivity).
   - constructor.
   - constructor.
+  - destruct v as [b [|]]; reflexivity.
   - vm_compute. discriminate.
 Qed.
 
 (* (2) literal braces are not preserved: "{{" comes out as "{", a lone "{" makes format() throw
    (so "arbitrary literal text" has to exclude braces) *)
 Lemma brace_literal_refuted :
-  generate (print [Lit [c_lb; c_lb]; Attr Message None]) = GOk (gen_of [Lit [c_lb; c_lb]; Attr Message None]) /\
+  generate pv_pinned (print [Lit [c_lb; c_lb]; Attr Message None]) = GOk (gen_of [Lit [c_lb; c_lb]; Attr Message None]) /\
   format_env id_spec (gen_of [Lit [c_lb; c_lb]; Attr Message None]) env0
     = FOk (c_lb :: attr_name Message ++ [c_nl]) /\
   line_spec id_spec [Lit [c_lb; c_lb]; Attr Message None] env0
     = c_lb :: c_lb :: attr_name Message ++ [c_nl] /\
-  generate (print [Lit [c_lb]; Attr Message None]) = GOk (gen_of [Lit [c_lb]; Attr Message None]) /\
+  generate pv_pinned (print [Lit [c_lb]; Attr Message None]) = GOk (gen_of [Lit [c_lb]; Attr Message None]) /\
   format_env id_spec (gen_of [Lit [c_lb]; Attr Message None]) env0 = FErr FE_unmatched_rb.
 Proof. repeat split; vm_compute; reflexivity. Qed.
+
+(* ... the same two patterns on the variant that doubles the literal braces: both are rendered
+   as written *)
+Lemma brace_literal_repaired :
+  (exists g, generate pv_repaired (print [Lit [c_lb; c_lb]; Attr Message None]) = GOk g /\
+             format_env id_spec g env0 = FOk (c_lb :: c_lb :: attr_name Message ++ [c_nl])) /\
+  (exists g, generate pv_repaired (print [Lit [c_lb]; Attr Message None]) = GOk g /\
+             format_env id_spec g env0 = FOk (c_lb :: attr_name Message ++ [c_nl])).
+Proof. split; eexists; split; vm_compute; reflexivity. Qed.
 
 (* (3) an attribute used twice (excluded by the property): accepted at creation, the slot of the
    first occurrence is never filled and format() throws "argument not found" *)
 Lemma duplicate_attr_refuted :
-  let p := [Attr Message None; Lit [32%N]; Attr Message None] in
-  generate (print p) = GOk (gen_of p) /\
+  forall v, let p := [Attr Message None; Lit [32%N]; Attr Message None] in
+  generate v (print p) = GOk (gen_of p) /\
   format_env id_spec (gen_of p) env0 = FErr FE_arg_not_found.
-Proof. split; vm_compute; reflexivity. Qed.
+Proof. intros [b [|]]; split; vm_compute; reflexivity. Qed.
 
 (* (4) two adjacent literal items can print as an attribute opener: the normal-form condition of
    [wf] is needed (and [normalize] restores it) *)
 Lemma adjacent_literals_need_normal_form :
-  let p := [Lit [c_pct]; Lit (c_lp :: attr_name Message ++ [c_rp])] in
+  forall v, let p := [Lit [c_pct]; Lit (c_lp :: attr_name Message ++ [c_rp])] in
   Forall wf_item p /\ NoDup (attrs p) /\
-  generate (print p) = GOk (gen_of [Attr Message None]) /\
+  generate v (print p) = GOk (gen_of [Attr Message None]) /\
   ~ Forall wf_item (normalize p).
 Proof.
-  cbv zeta. repeat split.
+  intros v. cbv zeta. repeat split.
   - repeat constructor; try (apply notin_b; reflexivity).
   - constructor.
+  - destruct v as [b [|]]; reflexivity.
   - intros H. inversion H as [|? ? Hit _]. destruct Hit as (_ & _ & Hf). vm_compute in Hf. discriminate.
 Qed.
 
@@ -1070,11 +1414,26 @@ Qed.
 Definition long_path : bytes := repeat 97%N (N.to_nat 65536).
 Lemma mm_long_path_refuted :
   let sl := long_path ++ [c_colon] ++ [49%N] in
-  mm_full_path sl = [] /\ mm_full_path sl <> long_path /\
-  N.of_nat (length (mm_line sl)) = 65537%N.
+  mm_full_path pv_pinned sl = [] /\ mm_full_path pv_pinned sl <> long_path /\
+  N.of_nat (length (mm_line pv_pinned sl)) = 65537%N.
 Proof.
-  cbv zeta. assert (H : mm_full_path (long_path ++ [c_colon] ++ [49%N]) = []) by (vm_compute; reflexivity).
+  cbv zeta. assert (H : mm_full_path pv_pinned (long_path ++ [c_colon] ++ [49%N]) = []) by (vm_compute; reflexivity).
   split; [exact H|split; [rewrite H; intros E; apply (f_equal (fun l => N.of_nat (length l))) in E; vm_compute in E; discriminate|vm_compute; reflexivity]].
+Qed.
+
+(* ... the same source location with size_t positions: the fields are the stated substrings *)
+Lemma mm_long_path_repaired : forall v, (64 <= pv_bits v)%N ->
+  let sl := long_path ++ [c_colon] ++ [49%N] in
+  mm_full_path v sl = long_path /\ mm_line v sl = [49%N] /\ mm_file_name v sl = long_path /\
+  mm_in_bounds v sl = true.
+Proof.
+  intros v Hv.
+  assert (Hns : ~ In c_slash long_path).
+  { unfold long_path. intros Hi. apply repeat_spec in Hi. discriminate. }
+  destruct (mm_fields_wide v [] long_path [49%N] Hv (or_introl eq_refl) Hns) as (_ & H1 & H2 & H3 & _ & H5).
+  - intros [E|[]]; discriminate.
+  - intros [E|[]]; discriminate.
+  - cbn [app] in *. auto.
 Qed.
 
 (* ---------- non-vacuity ---------- *)
@@ -1116,56 +1475,98 @@ Lemma ex_pat_nonempty : print ex_pat <> [].
 Proof. vm_compute. discriminate. Qed.
 
 (* ---------- the statements of C12 assembled ---------- *)
-Lemma line_created apply_spec p : wf p -> print p <> [] ->
-  exists g, generate (print p) = GOk g /\
-            forall st, format apply_spec g st = FOk (line_spec apply_spec p (env_of st)).
+Lemma line_created v apply_spec p : wf p -> print p <> [] ->
+  exists g, generate v (print p) = GOk g /\
+            forall st, format v apply_spec g st = FOk (line_spec apply_spec p (env_of v st)).
 Proof.
   intros Hwf Hne. exists (gen_of p). split; [now apply gen_print|].
   intros st. unfold format. now apply format_env_line.
 Qed.
 
+(* the variant that doubles the braces of the literal text: literal text with any braces *)
+Lemma line_created_esc v apply_spec p : pv_esc v = true -> wfg p -> print p <> [] ->
+  exists g, generate v (print p) = GOk g /\
+            forall st, format v apply_spec g st = FOk (line_spec apply_spec p (env_of v st)).
+Proof.
+  intros He Hwf Hne. exists (gen_of (esc_pat p)). split; [now apply gen_print_esc|].
+  intros st. unfold format. now apply format_env_line_esc.
+Qed.
+
+(* the patterns of a variant: literal text without braces for the code that hands them to fmt as
+   they are, any literal text (without "%(") for the code that doubles them first *)
+Definition wfv (v : pvar) (p : pat) : Prop := if pv_esc v then wfg p else wf p.
+
+Lemma wf_wfv v p : wf p -> wfv v p.
+Proof. unfold wfv. destruct (pv_esc v); [apply wf_wfg|auto]. Qed.
+
+Lemma line_created_v v apply_spec p : wfv v p -> print p <> [] ->
+  exists g, generate v (print p) = GOk g /\
+            forall st, format v apply_spec g st = FOk (line_spec apply_spec p (env_of v st)).
+Proof.
+  unfold wfv. destruct (pv_esc v) eqn:He; intros Hwf Hne;
+    [now apply line_created_esc|now apply line_created].
+Qed.
+
 (* any item list whose normal form is well formed (adjacent literals are merged first) *)
 Lemma line_created_normalized apply_spec p : wf (normalize p) -> print p <> [] ->
-  exists g, generate (print p) = GOk g /\
+  forall v, exists g, generate v (print p) = GOk g /\
             forall env, format_env apply_spec g env = FOk (line_spec apply_spec p env).
 Proof.
-  intros Hwf Hne. exists (gen_of (normalize p)). split.
+  intros Hwf Hne v. exists (gen_of (normalize p)). split.
   - rewrite <- (normalize_print p). now apply gen_print.
   - intros env. rewrite <- (normalize_line apply_spec env p).
     apply format_env_line; [exact Hwf|now rewrite normalize_print].
 Qed.
 
-Lemma sink_lines_on apply_spec p st : wf p -> print p <> [] -> nargs_empty (s_nargs st) = true ->
-  sink_lines apply_spec true (gen_of p) st =
-  Some (map (fun m => FOk (line_spec apply_spec p (env_of (with_msg st m))))
+Lemma sink_lines_on v apply_spec p st : wf p -> print p <> [] -> nargs_empty (s_nargs st) = true ->
+  sink_lines v apply_spec true (gen_of p) st =
+  Some (map (fun m => FOk (line_spec apply_spec p (env_of v (with_msg st m))))
             (match s_msg st with [] => [[]] | _ => drop_last_empty (split_on c_nl (s_msg st)) end)).
 Proof.
   intros Hwf Hne Hna. unfold sink_lines. rewrite (multiline_on _ _ Hna). f_equal.
   apply map_ext. intros m. unfold format. now apply format_env_line.
 Qed.
 
-Lemma sink_lines_off apply_spec add_meta p st : wf p -> print p <> [] ->
+Lemma sink_lines_on_esc v apply_spec p st : wfg p -> print p <> [] -> nargs_empty (s_nargs st) = true ->
+  sink_lines v apply_spec true (gen_of (esc_pat p)) st =
+  Some (map (fun m => FOk (line_spec apply_spec p (env_of v (with_msg st m))))
+            (match s_msg st with [] => [[]] | _ => drop_last_empty (split_on c_nl (s_msg st)) end)).
+Proof.
+  intros Hwf Hne Hna. unfold sink_lines. rewrite (multiline_on _ _ Hna). f_equal.
+  apply map_ext. intros m. unfold format. now apply format_env_line_esc.
+Qed.
+
+Lemma sink_lines_off v apply_spec add_meta p st : wf p -> print p <> [] ->
   add_meta && nargs_empty (s_nargs st) = false ->
-  sink_lines apply_spec add_meta (gen_of p) st =
-  Some [FOk (line_spec apply_spec p (env_of (with_msg st (strip_one_nl (s_msg st)))))].
+  sink_lines v apply_spec add_meta (gen_of p) st =
+  Some [FOk (line_spec apply_spec p (env_of v (with_msg st (strip_one_nl (s_msg st)))))].
 Proof.
   intros Hwf Hne Hoff. unfold sink_lines. rewrite (multiline_off _ _ _ Hoff). cbn [map].
   unfold format. now rewrite format_env_line.
 Qed.
 
+Lemma sink_lines_off_esc v apply_spec add_meta p st : wfg p -> print p <> [] ->
+  add_meta && nargs_empty (s_nargs st) = false ->
+  sink_lines v apply_spec add_meta (gen_of (esc_pat p)) st =
+  Some [FOk (line_spec apply_spec p (env_of v (with_msg st (strip_one_nl (s_msg st)))))].
+Proof.
+  intros Hwf Hne Hoff. unfold sink_lines. rewrite (multiline_off _ _ _ Hoff). cbn [map].
+  unfold format. now rewrite format_env_line_esc.
+Qed.
+
 (* the text a line is made of: every attribute of the statement, as the property lists them *)
-Lemma env_of_fields st :
-  env_of st Time = s_time st /\ env_of st LogLevel = s_level st /\
-  env_of st LogLevelShortCode = s_short st /\ env_of st Logger = s_logger st /\
-  env_of st ThreadId = s_thread_id st /\ env_of st ThreadName = s_thread_name st /\
-  env_of st ProcessId = s_process_id st /\ env_of st CallerFunction = s_func st /\
-  env_of st Message = s_msg st /\
-  env_of st Tags = match s_tags st with Some t => t | None => [] end /\
-  env_of st NamedArgs = match s_nargs st with Some l => join_nargs l | None => [] end /\
-  env_of st SourceLocation = s_srcloc st /\
-  env_of st FullPath = mm_full_path (s_srcloc st) /\ env_of st LineNumber = mm_line (s_srcloc st) /\
-  env_of st FileName = mm_file_name (s_srcloc st) /\
-  env_of st ShortSourceLocation = mm_short_source_location (s_srcloc st).
+Lemma env_of_fields v st :
+  env_of v st Time = s_time st /\ env_of v st LogLevel = s_level st /\
+  env_of v st LogLevelShortCode = s_short st /\ env_of v st Logger = s_logger st /\
+  env_of v st ThreadId = s_thread_id st /\ env_of v st ThreadName = s_thread_name st /\
+  env_of v st ProcessId = s_process_id st /\ env_of v st CallerFunction = s_func st /\
+  env_of v st Message = s_msg st /\
+  env_of v st Tags = match s_tags st with Some t => t | None => [] end /\
+  env_of v st NamedArgs = match s_nargs st with Some l => join_nargs l | None => [] end /\
+  env_of v st SourceLocation = s_srcloc st /\
+  env_of v st FullPath = mm_full_path v (s_srcloc st) /\ env_of v st LineNumber = mm_line v (s_srcloc st) /\
+  env_of v st FileName = mm_file_name v (s_srcloc st) /\
+  env_of v st ShortSourceLocation = mm_short_source_location v (s_srcloc st).
 Proof. repeat split. Qed.
 
 (* the named_args text is "k: v" joined with ", " *)
@@ -1207,14 +1608,14 @@ Qed.
 
 (* ---------- more non-vacuity witnesses ---------- *)
 Definition ex_name : bytes := [102; 111; 111]%N.      (* "foo" *)
-Lemma ex_unknown_name :
+Lemma ex_unknown_name : forall v,
   ~ In c_rp ex_name /\ ~ In c_colon ex_name /\ attr_of_name ex_name = None /\
   ~ In c_rp (fspec (Some [62; 53]%N)) /\
-  generate (print ex_pat ++ [c_pct; c_lp] ++ ex_name ++ fspec (Some [62; 53]%N) ++ [c_rp] ++ [33%N])
+  generate v (print ex_pat ++ [c_pct; c_lp] ++ ex_name ++ fspec (Some [62; 53]%N) ++ [c_rp] ++ [33%N])
     = GErr (GE_unknown ex_name) /\
-  generate (print ex_pat ++ [c_pct; c_lp] ++ ex_name) = GErr GE_unterminated.
+  generate v (print ex_pat ++ [c_pct; c_lp] ++ ex_name) = GErr GE_unterminated.
 Proof.
-  repeat split; try (apply notin_b; reflexivity); vm_compute; reflexivity.
+  intros [b [|]]; repeat split; try (apply notin_b; reflexivity); vm_compute; reflexivity.
 Qed.
 
 Definition ex_dir : bytes := [47; 97; 47]%N.          (* "/a/" *)
@@ -1223,11 +1624,33 @@ Definition ex_line : bytes := [49; 50]%N.             (* "12" *)
 Lemma ex_mm :
   (ex_dir = [] \/ exists d, ex_dir = d ++ [c_slash]) /\
   ~ In c_slash ex_fname /\ ~ In c_slash ex_line /\ ~ In c_colon ex_line /\
-  (N.of_nat (length (ex_dir ++ ex_fname ++ [c_colon] ++ ex_line)) < 65536)%N /\
-  mm_file_name (ex_dir ++ ex_fname ++ [c_colon] ++ ex_line) = ex_fname.
+  fits pv_pinned (N.of_nat (length (ex_dir ++ ex_fname ++ [c_colon] ++ ex_line))) /\
+  fits pv_repaired (N.of_nat (length (ex_dir ++ ex_fname ++ [c_colon] ++ ex_line))) /\
+  mm_file_name pv_pinned (ex_dir ++ ex_fname ++ [c_colon] ++ ex_line) = ex_fname /\
+  mm_file_name pv_repaired (ex_dir ++ ex_fname ++ [c_colon] ++ ex_line) = ex_fname.
 Proof.
   split; [right; exists [47; 97]%N; reflexivity|].
-  repeat split; try (apply notin_b; reflexivity); reflexivity.
+  repeat split; try (apply notin_b; reflexivity).
+  - right. reflexivity.
+  - left. cbn. discriminate.
+Qed.
+
+(* a pattern with braces in its literal text: {"level": "%(log_level)", "msg": "%(message)"} *)
+Definition ex_json_pat : pat :=
+  [Lit [123; 34; 108; 101; 118; 101; 108; 34; 58; 32; 34]%N; Attr LogLevel None;
+   Lit [34; 44; 32; 34; 109; 115; 103; 34; 58; 32; 34]%N; Attr Message None; Lit [34; 125]%N].
+
+Lemma ex_json_pat_wfg : wfg ex_json_pat /\ print ex_json_pat <> [] /\ ~ wf ex_json_pat.
+Proof.
+  split; [|split].
+  - split; [|split].
+    + cbn [ex_json_pat attrs].
+      repeat (constructor; [cbn; intros H; repeat (destruct H as [H|H]; [discriminate|]); exact H|]).
+      constructor.
+    + unfold ex_json_pat. repeat (constructor; [cbn [wfg_item]; try reflexivity; exact I|]). constructor.
+    + cbn. exact I.
+  - vm_compute. discriminate.
+  - intros (_ & H & _). inversion H as [|? ? Hit _]. destruct Hit as (Hl & _). apply Hl. now left.
 Qed.
 
 Lemma ex_multiline :
